@@ -150,6 +150,12 @@ def map_lines_to_fns(text):
                 spans.append((cur[0], i - 1, cur[1]))
             cur = (i, m.group(1))
             continue
+        m = re.match(r"// ---- extracted (fragment .*) ----", ln)     # R15: label `fragment NAME of ALIAS::-::FN`
+        if m:
+            if cur:
+                spans.append((cur[0], i - 1, cur[1]))
+            cur = (i, m.group(1))
+            continue
         m2 = re.match(r"\s*pub (?:broadcast )?proof fn (\w+)", ln)
         if m2 or ln.startswith("// ======== include") or ln.startswith("// ---- extracted type") or ln.startswith("// ---- imported fn"):
             if cur:
